@@ -89,13 +89,52 @@ Proof.
     + apply pub_ok_mono; exact Hp.
 Qed.
 
+Lemma inv_mono : forall c prev o st, inv c prev st -> inv c (o :: prev) st.
+Proof.
+  intros c prev o st [Hc Hp]. split; [apply chk_ok_mono; exact Hc|apply pub_ok_mono; exact Hp].
+Qed.
+
+(** the cache part of a public-key conversion by driver [id] *)
+Lemma pub_id_exact : forall c prev st o id p h raw,
+  has_drv c id = true -> c_raw c id p = Some raw ->
+  op_key c o = Some ((1 + id)%N, p) -> op_under c o = AStr (fmt c id h raw) ->
+  inv c prev st -> consistent_with c prev o = true ->
+  let r := pub_to_addr_id c st id p h in
+  snd r = AStr (fmt c id h raw) /\ inv c (o :: prev) (fst r).
+Proof.
+  intros c prev st o id p h raw Hh Hr Hk Hu [Hc Hp] Hcons. unfold pub_to_addr_id.
+  rewrite Hh, Hr. simpl negb. cbv iota.
+  destruct (lru_get p (pc_find id (s_pub st))) as [[v l']|] eqn:G; simpl.
+  - apply get_some in G as [F Hsub].
+    destruct (Hp id p v F) as [o' [Hin [Hk' Hu']]].
+    assert (E : op_under c o = op_under c o').
+    { apply (consistent_use c prev); [exact Hcons|exact Hin|].
+      rewrite Hk, Hk'. apply key_eqb_refl_pair. }
+    split; [rewrite Hu, Hu' in E; congruence|].
+    split; simpl; [apply chk_ok_mono; exact Hc|].
+    intros id2 p2 v2 F2. destruct (N.eq_dec id2 id) as [->|Hne].
+    + rewrite pc_find_set_same in F2. apply Hsub in F2.
+      exact (pub_ok_mono _ _ _ _ Hp _ _ _ F2).
+    + rewrite pc_find_set_other in F2 by exact Hne.
+      exact (pub_ok_mono _ _ _ _ Hp _ _ _ F2).
+  - split; [reflexivity|].
+    split; simpl; [apply chk_ok_mono; exact Hc|].
+    intros id2 p2 v2 F2. destruct (N.eq_dec id2 id) as [->|Hne].
+    + rewrite pc_find_set_same in F2. apply find_add in F2.
+      destruct F2 as [[-> ->]|F2].
+      * exists o. split; [left; reflexivity|]. split; [exact Hk|exact Hu].
+      * exact (pub_ok_mono _ _ _ _ Hp _ _ _ F2).
+    + rewrite pc_find_set_other in F2 by exact Hne.
+      exact (pub_ok_mono _ _ _ _ Hp _ _ _ F2).
+Qed.
+
 Lemma step_exact : forall c prev st o perm,
   Permutation perm (c_drv c) -> inv c prev st ->
   op_unambiguous c o = true -> consistent_with c prev o = true ->
   snd (step c st o perm) = spec_answer c o /\ inv c (o :: prev) (fst (step c st o perm)).
 Proof.
   intros c prev st o perm P Hinv Hun Hcons. unfold step.
-  destruct o as [a h|a h|d p h|k h]; simpl op_miss.
+  destruct o as [a h|a h|d p h|k h|d p h]; simpl op_miss.
   - (* OCheck *)
     simpl in Hun. rewrite (miss_unambiguous c perm a h P Hun).
     pose proof (check_v_exact c prev st (OCheck a h) a h eq_refl eq_refl Hinv Hcons) as [H1 H2].
@@ -114,43 +153,44 @@ Proof.
       simpl in *. split; [congruence|exact H2].
   - (* OPub *)
     unfold step_v, pub_to_addr. simpl spec_answer.
-    destruct Hinv as [Hc Hp].
-    destruct (negb (has_drv c (resolve_drv c d))) eqn:Hh.
-    + simpl. split; [reflexivity|].
-      split; [apply chk_ok_mono; exact Hc|apply pub_ok_mono; exact Hp].
-    + destruct (c_raw c (resolve_drv c d) p) as [raw|] eqn:Hr.
-      2:{ simpl. split; [reflexivity|].
-          split; [apply chk_ok_mono; exact Hc|apply pub_ok_mono; exact Hp]. }
-      set (id := resolve_drv c d) in *.
-      assert (Hk : op_key c (OPub d p h) = Some ((1 + id)%N, p)).
-      { simpl. fold id. rewrite Hh, Hr. reflexivity. }
-      assert (Hu : op_under c (OPub d p h) = AStr (fmt c id h raw)).
-      { simpl. fold id. rewrite Hh, Hr. reflexivity. }
-      destruct (lru_get p (pc_find id (s_pub st))) as [[v l']|] eqn:G; simpl.
-      * apply get_some in G as [F Hsub].
-        destruct (Hp id p v F) as [o' [Hin [Hk' Hu']]].
-        assert (E : op_under c (OPub d p h) = op_under c o').
-        { apply (consistent_use c prev); [exact Hcons|exact Hin|].
-          rewrite Hk, Hk'. apply key_eqb_refl_pair. }
-        split; [rewrite Hu, Hu' in E; congruence|].
-        split; simpl; [apply chk_ok_mono; exact Hc|].
-        intros id2 p2 v2 F2. destruct (N.eq_dec id2 id) as [->|Hne].
-        -- rewrite pc_find_set_same in F2. apply Hsub in F2.
-           exact (pub_ok_mono _ _ _ _ Hp _ _ _ F2).
-        -- rewrite pc_find_set_other in F2 by exact Hne.
-           exact (pub_ok_mono _ _ _ _ Hp _ _ _ F2).
-      * split; [reflexivity|].
-        split; simpl; [apply chk_ok_mono; exact Hc|].
-        intros id2 p2 v2 F2. destruct (N.eq_dec id2 id) as [->|Hne].
-        -- rewrite pc_find_set_same in F2. apply find_add in F2.
-           destruct F2 as [[-> ->]|F2].
-           ++ exists (OPub d p h). split; [left; reflexivity|]. split; [exact Hk|exact Hu].
-           ++ exact (pub_ok_mono _ _ _ _ Hp _ _ _ F2).
-        -- rewrite pc_find_set_other in F2 by exact Hne.
-           exact (pub_ok_mono _ _ _ _ Hp _ _ _ F2).
+    set (id := resolve_drv c d) in *.
+    destruct (has_drv c id) eqn:Hh.
+    2:{ unfold pub_to_addr_id. rewrite Hh. simpl. split; [reflexivity|apply inv_mono; exact Hinv]. }
+    destruct (c_raw c id p) as [raw|] eqn:Hr.
+    2:{ unfold pub_to_addr_id. rewrite Hh, Hr. simpl. split; [reflexivity|apply inv_mono; exact Hinv]. }
+    simpl negb. cbv iota.
+    apply (pub_id_exact c prev st (OPub d p h) id p h raw Hh Hr); try assumption.
+    + simpl. fold id. rewrite Hh, Hr. reflexivity.
+    + simpl. fold id. rewrite Hh, Hr. reflexivity.
   - (* OSign *)
-    simpl. split; [reflexivity|]. destruct Hinv as [Hc Hp].
-    split; [apply chk_ok_mono; exact Hc|apply pub_ok_mono; exact Hp].
+    unfold step_v. simpl spec_answer.
+    destruct (c_sfrom c k) as [[d p]|] eqn:Hs.
+    2:{ simpl. split; [reflexivity|apply inv_mono; exact Hinv]. }
+    unfold from_addr, from_ok.
+    destruct (has_drv c d) eqn:Hh.
+    2:{ unfold pub_to_addr_id. rewrite Hh. simpl. split; [reflexivity|apply inv_mono; exact Hinv]. }
+    destruct (c_raw c d p) as [raw|] eqn:Hr.
+    2:{ unfold pub_to_addr_id. rewrite Hh, Hr. simpl. split; [reflexivity|apply inv_mono; exact Hinv]. }
+    assert (Hk : op_key c (OSign k h) = Some ((1 + d)%N, p)).
+    { simpl. rewrite Hs, Hh, Hr. reflexivity. }
+    assert (Hu : op_under c (OSign k h) = AStr (fmt c d h raw)).
+    { simpl. rewrite Hs, Hr. reflexivity. }
+    pose proof (pub_id_exact c prev st (OSign k h) d p h raw Hh Hr Hk Hu Hinv Hcons) as [H1 H2].
+    destruct (pub_to_addr_id c st d p h) as [st' a]. simpl in H1, H2. subst a.
+    simpl. split; [reflexivity|exact H2].
+  - (* OFrom *)
+    unfold step_v. simpl spec_answer. unfold from_addr.
+    destruct (has_drv c d) eqn:Hh.
+    2:{ unfold pub_to_addr_id. rewrite Hh. simpl. split; [reflexivity|apply inv_mono; exact Hinv]. }
+    destruct (c_raw c d p) as [raw|] eqn:Hr.
+    2:{ unfold pub_to_addr_id. rewrite Hh, Hr. simpl. split; [reflexivity|apply inv_mono; exact Hinv]. }
+    assert (Hk : op_key c (OFrom d p h) = Some ((1 + d)%N, p)).
+    { simpl. rewrite Hh, Hr. reflexivity. }
+    assert (Hu : op_under c (OFrom d p h) = AStr (fmt c d h raw)).
+    { simpl. rewrite Hh, Hr. reflexivity. }
+    pose proof (pub_id_exact c prev st (OFrom d p h) d p h raw Hh Hr Hk Hu Hinv Hcons) as [H1 H2].
+    destruct (pub_to_addr_id c st d p h) as [st' a]. simpl in H1, H2. subst a.
+    simpl. split; [reflexivity|exact H2].
 Qed.
 
 Lemma run_exact_gen : forall c hist prev st,
@@ -198,8 +238,8 @@ Lemma vconsistent_use : forall c prev o o' a h h0,
 Proof.
   intros c prev o o' a h h0 H Hin Hq Hq'. unfold vconsistent_with in H.
   rewrite forallb_forall in H. specialize (H o' Hin).
-  destruct o as [a1 h1|a1 h1| |]; try discriminate Hq;
-  destruct o' as [a2 h2|a2 h2| |]; try discriminate Hq';
+  destruct o as [a1 h1|a1 h1| | |]; try discriminate Hq;
+  destruct o' as [a2 h2|a2 h2| | |]; try discriminate Hq';
   simpl in Hq, Hq'; inversion Hq; inversion Hq'; subst;
   rewrite N.eqb_refl in H; simpl in H; apply Bool.eqb_prop in H; exact H.
 Qed.
@@ -230,6 +270,14 @@ Proof.
   unfold dapp_post. rewrite H1, H2. reflexivity.
 Qed.
 
+Lemma pub_id_chk : forall c st id p h, s_chk (fst (pub_to_addr_id c st id p h)) = s_chk st.
+Proof.
+  intros c st id p h. unfold pub_to_addr_id.
+  destruct (negb (has_drv c id)); [reflexivity|].
+  destruct (c_raw c id p); [|reflexivity].
+  destruct (lru_get p (pc_find id (s_pub st))) as [[v l']|]; reflexivity.
+Qed.
+
 Lemma step_valid : forall c prev st o perm,
   Permutation perm (c_drv c) -> chk_okv c prev (s_chk st) ->
   vconsistent_with c prev o = true ->
@@ -238,7 +286,7 @@ Lemma step_valid : forall c prev st o perm,
   /\ chk_okv c (o :: prev) (s_chk (fst (step c st o perm))).
 Proof.
   intros c prev st o perm P Hc Hcons. unfold step.
-  destruct o as [a h|a h|d p h|k h]; simpl op_miss.
+  destruct o as [a h|a h|d p h|k h|d p h]; simpl op_miss.
   - pose proof (check_v_valid c prev st (OCheck a h) a h (miss_result c perm a h)
                   eq_refl (miss_valid c perm a h P) Hc Hcons) as [H1 H2].
     unfold step_v. destruct (check_address_v c st a (miss_result c perm a h)) as [st' e'].
@@ -252,12 +300,14 @@ Proof.
       simpl in *. split; [|exact H2]. intro Hv.
       rewrite !(dapp_post_forked c h _ Hv). rewrite H1. symmetry. apply spec_under_valid.
   - split; [intro Hv; discriminate Hv|].
-    unfold step_v, pub_to_addr.
-    destruct (negb (has_drv c (resolve_drv c d))); [apply chk_okv_mono; exact Hc|].
-    destruct (c_raw c (resolve_drv c d) p); [|apply chk_okv_mono; exact Hc].
-    destruct (lru_get p (pc_find (resolve_drv c d) (s_pub st))) as [[v l']|];
-      simpl; apply chk_okv_mono; exact Hc.
-  - split; [intro Hv; discriminate Hv|]. simpl. apply chk_okv_mono; exact Hc.
+    unfold step_v, pub_to_addr. rewrite pub_id_chk. apply chk_okv_mono; exact Hc.
+  - split; [intro Hv; discriminate Hv|].
+    unfold step_v. destruct (c_sfrom c k) as [[d p]|]; [|apply chk_okv_mono; exact Hc].
+    unfold from_addr. pose proof (pub_id_chk c st d p h) as E.
+    destruct (pub_to_addr_id c st d p h) as [st' a]. simpl in *. rewrite E. apply chk_okv_mono; exact Hc.
+  - split; [intro Hv; discriminate Hv|].
+    unfold step_v, from_addr. pose proof (pub_id_chk c st d p h) as E.
+    destruct (pub_to_addr_id c st d p h) as [st' a]. simpl in *. rewrite E. apply chk_okv_mono; exact Hc.
 Qed.
 
 Definition valid_agree (c : config) (o : op) (a : ans) : Prop :=
@@ -309,8 +359,8 @@ Proof.
   intros c ops. induction ops as [|o tl IH]; intros prev H; [reflexivity|].
   simpl. rewrite (IH (o :: prev) H). rewrite andb_true_r.
   unfold vconsistent_with. apply forallb_forall. intros o' _.
-  destruct o as [a h|a h| |]; try reflexivity;
-  destruct o' as [a' h'|a' h'| |]; try reflexivity;
+  destruct o as [a h|a h| | |]; try reflexivity;
+  destruct o' as [a' h'|a' h'| | |]; try reflexivity;
   (destruct (N.eqb a a') eqn:E; [|reflexivity]);
   apply N.eqb_eq in E; subst a'; simpl;
   rewrite (spec_valid_all_zero c a h h' H); apply eqb_reflx.
@@ -347,38 +397,62 @@ Qed.
 Lemma key_eqb_none_r : forall k, key_eqb k None = false.
 Proof. intros [[x y]|]; reflexivity. Qed.
 
+(** what an operation with a cache key stores: an address verdict (key 0) or a
+    formatted address of some driver at the operation's context height *)
+Lemma key_shape : forall c side o k1 k2,
+  op_key c o = Some (k1, k2) ->
+  (k1 = 0%N /\ exists h, op_under c o = AErr (spec_under c k2 h))
+  \/ (exists id h raw, k1 = (1 + id)%N /\ c_raw c id k2 = Some raw
+       /\ op_under c o = AStr (fmt c id h raw)
+       /\ (fmt_side_b c side [o] = true -> is_fork h (c_ffmt c) = side)).
+Proof.
+  intros c side o k1 k2 K.
+  destruct o as [a h|a h|d p h|k h|d p h]; cbn [op_key] in K.
+  - injection K as <- <-. left. split; [reflexivity|]. exists h. reflexivity.
+  - destruct (is_drv_addr c a h); [discriminate K|]. injection K as <- <-.
+    left. split; [reflexivity|]. exists h. reflexivity.
+  - destruct (negb (has_drv c (resolve_drv c d))) eqn:Hh; [discriminate K|].
+    destruct (c_raw c (resolve_drv c d) p) as [raw|] eqn:Hr; [|discriminate K].
+    injection K as <- <-. right. exists (resolve_drv c d), h, raw.
+    split; [reflexivity|]. split; [exact Hr|]. split.
+    + cbn [op_under spec_answer]. rewrite Hh, Hr. reflexivity.
+    + cbn [fmt_side_b forallb]. rewrite andb_true_r. intro E. apply Bool.eqb_prop in E. exact E.
+  - destruct (c_sfrom c k) as [[d p]|] eqn:Hs; [|discriminate K].
+    destruct (negb (has_drv c d)) eqn:Hh; [discriminate K|].
+    destruct (c_raw c d p) as [raw|] eqn:Hr; [|discriminate K].
+    injection K as <- <-. right. exists d, h, raw.
+    split; [reflexivity|]. split; [exact Hr|]. split.
+    + cbn [op_under]. rewrite Hs, Hr. reflexivity.
+    + cbn [fmt_side_b forallb]. rewrite andb_true_r. intro E. apply Bool.eqb_prop in E. exact E.
+  - destruct (negb (has_drv c d)) eqn:Hh; [discriminate K|].
+    destruct (c_raw c d p) as [raw|] eqn:Hr; [|discriminate K].
+    injection K as <- <-. right. exists d, h, raw.
+    split; [reflexivity|]. split; [exact Hr|]. split.
+    + cbn [op_under spec_answer]. rewrite Hh, Hr. reflexivity.
+    + cbn [fmt_side_b forallb]. rewrite andb_true_r. intro E. apply Bool.eqb_prop in E. exact E.
+Qed.
+
 Lemma consistent_default : forall c side prev o,
   all_zero c = true -> fmt_side_b c side prev = true -> fmt_side_b c side [o] = true ->
   consistent_with c prev o = true.
 Proof.
   intros c side prev o Hz Hs Ho. unfold consistent_with. apply forallb_forall. intros o' Hin.
-  unfold fmt_side_b in Hs. rewrite forallb_forall in Hs. specialize (Hs o' Hin).
-  cbn [fmt_side_b forallb] in Ho. rewrite andb_true_r in Ho.
+  assert (Hs' : fmt_side_b c side [o'] = true).
+  { unfold fmt_side_b in *. rewrite forallb_forall in Hs. cbn [forallb]. rewrite (Hs o' Hin). reflexivity. }
   destruct (key_eqb (op_key c o) (op_key c o')) eqn:Hk; [|reflexivity].
   cbn [negb orb].
-  assert (ErrCase : forall a h a' h', a = a' ->
-            ans_eqb (AErr (spec_under c a h)) (AErr (spec_under c a' h')) = true).
-  { intros a h a' h' <-. cbn [ans_eqb]. rewrite (spec_under_all_zero c a h h' Hz). apply err_eqb_refl. }
-  destruct o as [a h|a h|d p h|k h]; destruct o' as [a' h'|a' h'|d' p' h'|k' h'];
-    cbn [op_key] in Hk; try discriminate Hk;
-    repeat match type of Hk with
-           | context [if ?b then _ else _] => destruct b eqn:?
-           | context [match ?x with Some _ => _ | None => _ end] => destruct x eqn:?
-           end;
-    try discriminate Hk; try (rewrite key_eqb_none_r in Hk; discriminate Hk);
-    apply key_eqb_true in Hk as [K1 K2];
-    try (cbn [op_under]; apply ErrCase; exact K2);
-    try (exfalso; lia).
-  (* two pubkey conversions through the same driver cache *)
-  assert (Hid : resolve_drv c d = resolve_drv c d') by lia. subst p'.
-  cbn [op_under spec_answer].
-  repeat match goal with H : negb _ = false |- _ => rewrite H; clear H end.
-  match goal with H : c_raw c (resolve_drv c d) p = Some _ |- _ => rewrite H; rename H into R1 end.
-  match goal with H : c_raw c (resolve_drv c d') p = Some _ |- _ => rewrite H; rename H into R2 end.
-  rewrite Hid in R1. rewrite R1 in R2. inversion R2; subst.
-  apply Bool.eqb_prop in Ho, Hs.
-  rewrite Hid. cbn [ans_eqb]. rewrite (fmt_same_side c _ h h' _) by congruence.
-  apply (proj2 (bytes_eqb_eq _ _)). reflexivity.
+  destruct (op_key c o) as [[k1 k2]|] eqn:K; [|discriminate Hk].
+  destruct (op_key c o') as [[k1' k2']|] eqn:K'; [|discriminate Hk].
+  apply key_eqb_true in Hk as [<- <-].
+  destruct (key_shape c side o k1 k2 K) as [[E0 [h U]]|(id & h & raw & E1 & R & U & S)];
+  destruct (key_shape c side o' k1 k2 K') as [[E0' [h' U']]|(id' & h' & raw' & E1' & R' & U' & S')].
+  - rewrite U, U'. cbn [ans_eqb]. rewrite (spec_under_all_zero c k2 h h' Hz). apply err_eqb_refl.
+  - exfalso; lia.
+  - exfalso; lia.
+  - assert (id' = id) by lia. subst id'. rewrite R in R'. injection R' as <-.
+    rewrite U, U'. cbn [ans_eqb]. rewrite (fmt_same_side c id h h' raw).
+    + apply (proj2 (bytes_eqb_eq _ _)). reflexivity.
+    + rewrite (S Ho), (S' Hs'). reflexivity.
 Qed.
 
 Lemma guard_default_gen : forall c side ops prev,
